@@ -31,6 +31,12 @@ MANIFEST = dict(
     design="§7 C06")
 
 NAMES = ["a", "b", "c", "d", ".h", "e.rs", "big", "k", "x"]
+# lines no glob parser accepts (unclosed class, unclosed alternation, reversed range, dangling escape): gitignore(5) /
+# the ignore crate's documentation: such a line is reported and skipped, every other line of the file stays in force
+MALFORMED = ["broken[", "a{b", "[z-a]", "x\\"]
+# (.gitignore files are left to the command-line level check C08: with git_ignore the matcher also reads the parents of
+# every root, which this check's oracle deliberately keeps out with parents(false))
+IGNORE_FILES = [".ignore", ".rgignore"]
 
 
 # ----------------------------------------------------------------------------- tree generation
@@ -55,6 +61,12 @@ def gen_tree(rng, depth, budget, foreign_ok):
     node = dict(kind="d", kids=kids, ignore=[])
     if rng.random() < 0.25:
         node["ignore"] = [(rng.choice(NAMES), rng.random() < 0.3) for _ in range(rng.randint(1, 2))]
+    # a partially invalid ignore file: malformed lines among valid rules that hide entries of this very directory
+    # (and same-named ones below it); mostly below the root directory
+    if kids and rng.random() < (0.12 if depth == 0 else 0.35):
+        node["bad"] = rng.sample(MALFORMED, rng.randint(1, 2))
+        node["igfile"] = rng.choice(IGNORE_FILES)
+        node["ignore"] = node["ignore"] + [(n, False) for n in rng.sample(sorted(kids), min(len(kids), rng.randint(1, 2)))]
     return node
 
 
@@ -96,11 +108,34 @@ def materialise(path, node):
         os.symlink(node["target"], path)
     else:
         os.makedirs(path, exist_ok=True)
-        if node["ignore"]:
-            with open(os.path.join(path, ".ignore"), "w") as f:
-                f.write("".join(n + ("/" if d else "") + "\n" for n, d in node["ignore"]))
+        if node["ignore"] or node.get("bad"):
+            lines = [n + ("/" if d else "") for n, d in node["ignore"]]
+            for b in node.get("bad", []):
+                lines.insert((7 * len(b) + ord(b[0]) + len(lines)) % (len(lines) + 1), b)
+            with open(os.path.join(path, node.get("igfile", ".ignore")), "w") as f:
+                f.write("".join(l + "\n" for l in lines))
         for n, k in node["kids"].items():
             materialise(os.path.join(path, n), k)
+
+
+def fixed_badglob_tree(igfile):
+    """t/{a, x/b, d/{<igfile>: valid rules b, k among malformed lines; b, c, k/x, e.rs/{a, b}}}: the rules of d hide d/b, d/k
+    and d/e.rs/b; x/b stays"""
+    F = lambda: dict(kind="f", size=5)
+    D = lambda kids, **kw: dict(dict(kind="d", kids=kids, ignore=[]), **kw)
+    return D({"a": F(), "x": D({"b": F()}),
+              "d": D({"b": F(), "c": F(), "k": D({"x": F()}), "e.rs": D({"a": F(), "b": F()})},
+                     ignore=[("b", False), ("k", False)], bad=list(MALFORMED), igfile=igfile)})
+
+
+def directed_cases():
+    res = []
+    for igfile in IGNORE_FILES:
+        for threads in (1, 2, 4, 8):
+            res.append(dict(budget=0, use_foreign=False, tree_seed=1, max_depth=None, max_filesize=None, follow=False,
+                            same_fs=False, has_filter=False, filter_names=["big"], hidden=(threads % 4 == 0),
+                            threads=threads, nroots=1, focus_xdev=False, fixed_tree=igfile, fixed_roots=["t"]))
+    return res
 
 
 def gen_case(rng):
@@ -136,8 +171,11 @@ def build_case(c, base, foreign_base):
             with open(os.path.join(foreign, n), "wb") as f:
                 f.write(b"y" * sz)
         os.symlink("..", os.path.join(foreign, "fd", "up"))
-    tree = gen_tree(rng, 0, [c["budget"]], bool(foreign))
-    choose_targets(rng, tree, foreign)
+    if c.get("fixed_tree"):
+        tree = fixed_badglob_tree(c["fixed_tree"])
+    else:
+        tree = gen_tree(rng, 0, [c["budget"]], bool(foreign))
+        choose_targets(rng, tree, foreign)
     if c.get("focus_xdev") and foreign:
         # a skipped directory on the other device, somewhere among siblings
         # ... in the root directory or one level down, skipped by the filter, by `hidden`, or by an ignore rule
@@ -169,6 +207,8 @@ def build_case(c, base, foreign_base):
             r = "./" + r
         if r not in roots:
             roots.append(r)
+    if c.get("fixed_roots"):
+        roots = list(c["fixed_roots"])
     c["roots"] = roots
     return roots, tree, foreign
 
@@ -220,12 +260,8 @@ def scan_fs(base, roots, foreign):
             lines.append(vlist(["0", str(nd[1]), str(nd[2])]))
         elif nd[0] == "d":
             lines.append(vlist(["1", vlist([vlist([vbytes(n), str(j)]) for n, j in nd[1]]), str(nd[2])]))
-            ig = os.path.join(nd[3], ".ignore")
-            if os.path.isfile(ig):
-                rs = []
-                for ln in open(ig).read().split("\n"):
-                    if ln:
-                        rs.append(vlist([vbytes(ln.rstrip("/")), vbool(ln.endswith("/"))]))
+            rs = [vlist([vbytes(n), vbool(d)]) for n, d in read_rules(nd[3])]
+            if rs:
                 rules.append(vlist([str(i), vlist(rs)]))
         else:
             lines.append(vlist(["2", vopt(None if nd[1] is None else str(nd[1])), str(nd[2]), str(nd[3])]))
@@ -247,13 +283,29 @@ def root_id(base, r, ids):
 
 # ----------------------------------------------------------------------------- find-style oracle (the spec)
 def read_rules(d):
-    p = os.path.join(d, ".ignore")
+    """the valid rules of a directory's ignore files; a malformed line is skipped, nothing else is"""
     rs = []
-    if os.path.isfile(p):
-        for ln in open(p).read().split("\n"):
-            if ln:
-                rs.append((ln.rstrip("/"), ln.endswith("/")))
+    for fn in IGNORE_FILES:
+        p = os.path.join(d, fn)
+        if os.path.isfile(p):
+            for ln in open(p).read().split("\n"):
+                if ln and ln not in MALFORMED:
+                    rs.append((ln.rstrip("/"), ln.endswith("/")))
     return rs
+
+
+def has_malformed(d):
+    for fn in IGNORE_FILES:
+        p = os.path.join(d, fn)
+        if os.path.isfile(p) and any(ln in MALFORMED for ln in open(p).read().split("\n")):
+            return True
+    return False
+
+
+def partial_error_paths(v):
+    """paths of the entries whose DirEntry::error() is set (harness field 5)"""
+    return sorted(o[1].decode("utf-8", "surrogateescape") for o in v
+                  if not isinstance(o, bytes) and o and o[0] == 0 and len(o) > 5 and o[5])
 
 
 def oracle(base, c):
@@ -446,6 +498,18 @@ def check_cases(ctx, cases, base0, foreign0, stats):
             ctx.violation("serial and parallel walkers report different entries: only-serial=%r only-parallel=%r loops %r / %r"
                           % (sorted(set(pd(ser)) - set(pd(par)))[:5], sorted(set(pd(par)) - set(pd(ser)))[:5], ser[1][:3], par[1][:3]),
                           dict(rep, serial=ser, parallel=par, oracle=ora))
+        # partial errors of a directory's ignore files: both walkers attach them to the directory's entry; expected on
+        # exactly the yielded directories (symlinks only where a walker treats them as directories) with a malformed line
+        eser, epar = partial_error_paths(hv[0]), partial_error_paths(hv[1])
+        def as_dir(p, depth):
+            full = os.path.join(base, p)
+            return os.path.isdir(full) and (not os.path.islink(full) or c["follow"] or depth == 0)
+        eexp = sorted(p for p, dp in ora[0] if as_dir(p, dp) and has_malformed(os.path.join(base, p)))
+        if eexp:
+            stats["cases-with-partially-invalid-ignore-file"] = stats.get("cases-with-partially-invalid-ignore-file", 0) + 1
+        if eser != epar or (prop_ok_pre(ser, par, ora, pd) and eser != eexp):
+            ctx.violation("partial ignore-file errors are attached to different entries: serial %r parallel %r expected %r"
+                          % (eser[:5], epar[:5], eexp[:5]), dict(rep, serial=ser, parallel=par, oracle=ora))
         if len(set(pd(ser))) != len(pd(ser)) or len(set(pd(par))) != len(pd(par)):
             ctx.violation("an entry is reported more than once", dict(rep, serial=ser, parallel=par))
         if pd(ser) != ora[0] or ser[1] != ora[1]:
@@ -465,6 +529,10 @@ def check_cases(ctx, cases, base0, foreign0, stats):
         if mpar[:3] != par[:3] or par[3]:
             ctx.violation("parallel model and WalkBuilder::build_parallel() disagree: %r vs %r" % (diff3(mpar, par)), dict(rep, model=mpar, code=par),
                           nfi=prop_ok)
+
+
+def prop_ok_pre(ser, par, ora, pd):
+    return pd(ser) == ora[0] and pd(par) == ora[0]
 
 
 def flip_flag(line, flag):
@@ -546,7 +614,16 @@ def run(ctx):
     stats = {}
     try:
         check_race(ctx, base0, stats)
+        # fixed trees with a partially invalid ignore file first; when they already give a failing input the generated
+        # cases are skipped (a walker that loses a directory's matcher can take very long on trees with link cycles)
+        bd = os.path.join(base0, "directed")
+        os.makedirs(bd)
+        check_cases(ctx, directed_cases(), bd, None, stats)
+        shutil.rmtree(bd, ignore_errors=True)
         n = ctx.count(1500)
+        if any(not nfi for _, nfi, _ in ctx.violations):
+            ctx.notes.append("a fixed tree gave a failing input: the generated cases were not run")
+            n = 0
         done = 0
         b = 0
         while done < n:
